@@ -1,6 +1,7 @@
 package main
 
 import (
+	"runtime/metrics"
 	"bytes"
 	"fmt"
 	"io"
@@ -73,7 +74,9 @@ func decodeInto(rv codec, path string, b []byte) (consumed int, err error) {
 func decodeIntoS(rv codec, path string, b []byte) (consumed int, reuse func(), err error) {
 	if path == "B" {
 		in := append([]byte{}, b...)
+		a0 := heapAllocs()
 		left, e := rv.UnmarshalMsg(in)
+		lastDecAlloc = heapAllocs() - a0
 		if e != nil {
 			return 0, nil, e
 		}
@@ -98,6 +101,22 @@ func decodeIntoS(rv codec, path string, b []byte) (consumed int, reuse func(), e
 		}
 	}, nil
 }
+
+// bytes requested from the heap so far (runtime/metrics: no stop-the-world; large objects are
+// counted at once, small ones when their span is handed back, which is precise enough for a
+// bound with megabytes of slack)
+var allocSample = []metrics.Sample{{Name: "/gc/heap/allocs:bytes"}}
+
+func heapAllocs() uint64 {
+	metrics.Read(allocSample)
+	if allocSample[0].Value.Kind() != metrics.KindUint64 {
+		return 0
+	}
+	return allocSample[0].Value.Uint64()
+}
+
+// heap bytes requested by the latest slice-path decode (UnmarshalMsg call alone)
+var lastDecAlloc uint64
 
 // withWatchdog runs f in its own goroutine; a panic or a timeout becomes an observation
 func withWatchdog(f func() string) string {
@@ -269,7 +288,8 @@ func init() {
 			if path == "S" {
 				return "skip"
 			}
-			if cnt && os.Getenv("FV_CHILD") == "" {
+			if os.Getenv("FV_CHILD") == "" {
+				// declared counts *and* declared lengths far beyond the input: under the limit of a child
 				return runChild("DEC", a)
 			}
 		}
@@ -285,13 +305,22 @@ func init() {
 			}
 			return fmt.Sprintf("%s alloc=%d", obs, m1.TotalAlloc-m0.TotalAlloc)
 		}
+		// slice path: what the decode requested from the heap goes with the observation (C10, memory clause)
+		allocTok := func() string {
+			if path != "B" {
+				return ""
+			}
+			return fmt.Sprintf(" alloc=%d", lastDecAlloc)
+		}
 		if rvs == "F" {
-			return decObs(ty, path, nil, false, b)
+			lastDecAlloc = 0
+			return decObs(ty, path, nil, false, b) + allocTok()
 		}
 		prev := unhx(rvs[1:])
 		used := decObs(ty, path, prev, true, b)
+		lastDecAlloc = 0
 		fresh := decObs(ty, path, nil, false, b)
-		return used + " ~ " + fresh
+		return used + allocTok() + " ~ " + fresh
 	}
 }
 
